@@ -72,3 +72,22 @@ Theorem C03_concat_final : forall trs, Forall kid_ok trs ->
   = flat_map (fun tr => attr_of_final_events (tr_events tr) (tr_text tr) true) trs.
 Proof. exact concat_final_attr. Qed.
 Print Assumptions C03_concat_final.
+
+(* (v) composites, columns = false: the same for the (file, line)-per-output-line attribution *)
+From RS Require Proofs.LinesTree.
+Theorem C03_final_vs_text_lines : forall st s,
+  RStreamTree.rshape s = true -> treeA s = true -> rsmall s = true ->
+  attr_of_final_events (fst (fst (stream st s (mkOpts false true)))) (source s) false =
+  attr_of_stream (fst (fst (stream st s (mkOpts false false)))) false.
+Proof. exact LinesTree.final_attr_tree_lines. Qed.
+Print Assumptions C03_final_vs_text_lines.
+
+Theorem C03_trees_lines : forall st s,
+  RStreamTree.rshape s = true -> treeA s = true -> rsmall s = true ->
+  forallb mapping_small (chunk_mappings (fst (fst (stream st s (mkOpts false true))))) = true ->
+  attr_of_map (fst (get_map st s false)) (source s) false =
+  attr_of_stream (fst (fst (stream st s (mkOpts false false)))) false /\
+  is_none (fst (get_map st s false)) =
+  negb (mapped_chunk_exists (fst (fst (stream st s (mkOpts false false))))).
+Proof. exact LinesTree.C03_tree_lines. Qed.
+Print Assumptions C03_trees_lines.
